@@ -208,7 +208,7 @@ func RunJob(prop, cls, tier string, js JobSpec, deadline time.Time) *hk.Result {
 
 func hasMultiEntryMap(n *Node) bool {
 	switch n.K {
-	case "map", "mapss", "tmap", "stmap", "tstruct":
+	case "map", "mapss", "tmap", "stmap", "sptmap", "tstruct":
 		if len(n.Kids) > 1 {
 			return true
 		}
